@@ -6,6 +6,8 @@ import QeepProofs.BcastSum
 import QeepProofs.Real
 import Mathlib.Algebra.BigOperators.Group.Finset.Basic
 import Mathlib.Algebra.BigOperators.Ring.Finset
+import Mathlib.Analysis.Calculus.Deriv.Add
+import Mathlib.Analysis.Calculus.Deriv.Mul
 /-!
 # C16 extension — the FC layer: totality of `Forward`, and the parameter / input gradients
 -/
@@ -1075,6 +1077,101 @@ theorem sumOver_real (n : Nat) (f : Nat → ℝ) : sumOver n f = ∑ i ∈ Finse
   | zero => simp [sumOver]
   | succ n ih => rw [sumOver_succ, ih, Finset.sum_range_succ]; rfl
 
+/-- the FC formula over ℝ: `y[n][o] = W[o]·Σ_d x[n][d] + B[o]` -/
+noncomputable def fcReal (D : ℕ) (W B : ℕ → ℝ) (X : ℕ → ℕ → ℝ) (n o : ℕ) : ℝ :=
+  W o * (∑ d ∈ Finset.range D, X n d) + B o
+
+/-- the scalar `Σ_{n,o} G[n][o]·y[n][o]`: a backward pass seeded with `G` must deliver its partial derivatives -/
+noncomputable def fcLoss (N D O : ℕ) (G : ℕ → ℕ → ℝ) (W B : ℕ → ℝ) (X : ℕ → ℕ → ℝ) : ℝ :=
+  ∑ n ∈ Finset.range N, ∑ o ∈ Finset.range O, G n o * fcReal D W B X n o
+
+theorem hasDerivAt_double_sum (N O : ℕ) (f : ℕ → ℕ → ℝ → ℝ) (f' : ℕ → ℕ → ℝ) (a : ℝ)
+    (h : ∀ n o, n < N → o < O → HasDerivAt (f n o) (f' n o) a) :
+    HasDerivAt (fun t => ∑ n ∈ Finset.range N, ∑ o ∈ Finset.range O, f n o t) (∑ n ∈ Finset.range N, ∑ o ∈ Finset.range O, f' n o) a := by
+  apply HasDerivAt.fun_sum
+  intro n hn
+  apply HasDerivAt.fun_sum
+  intro o ho
+  exact h n o (Finset.mem_range.mp hn) (Finset.mem_range.mp ho)
+
+theorem fc_vjp_is_derivative (N D O : ℕ) (G : ℕ → ℕ → ℝ) (W B : ℕ → ℝ) (X : ℕ → ℕ → ℝ) :
+    (∀ o', o' < O →
+      HasDerivAt (fun t => fcLoss N D O G W (Function.update B o' t) X) (∑ n ∈ Finset.range N, G n o') (B o')) ∧
+    (∀ o', o' < O →
+      HasDerivAt (fun t => fcLoss N D O G (Function.update W o' t) B X)
+        (∑ n ∈ Finset.range N, G n o' * ∑ d ∈ Finset.range D, X n d) (W o')) ∧
+    (∀ n' d', n' < N → d' < D →
+      HasDerivAt (fun t => fcLoss N D O G W B (Function.update X n' (Function.update (X n') d' t)))
+        (∑ o ∈ Finset.range O, G n' o * W o) (X n' d')) := by
+  refine ⟨?_, ?_, ?_⟩
+  · intro o' ho'
+    have key := hasDerivAt_double_sum N O
+      (fun n o t => G n o * fcReal D W (Function.update B o' t) X n o)
+      (fun n o => if o = o' then G n o else 0) (B o') (by
+        intro n o _ _
+        by_cases h : o = o'
+        · subst h
+          simp only [fcReal, Function.update_self, if_true]
+          have := ((hasDerivAt_id (B o)).const_add (W o * ∑ d ∈ Finset.range D, X n d)).const_mul (G n o)
+          simpa using this
+        · simp only [fcReal, Function.update_of_ne h, h, if_false]
+          exact hasDerivAt_const _ _)
+    refine key.congr_deriv ?_
+    apply Finset.sum_congr rfl
+    intro n _
+    rw [Finset.sum_ite_eq' (Finset.range O) o' (fun o => G n o)]
+    simp [ho']
+  · intro o' ho'
+    have key := hasDerivAt_double_sum N O
+      (fun n o t => G n o * fcReal D (Function.update W o' t) B X n o)
+      (fun n o => if o = o' then G n o * ∑ d ∈ Finset.range D, X n d else 0) (W o') (by
+        intro n o _ _
+        by_cases h : o = o'
+        · subst h
+          simp only [fcReal, Function.update_self, if_true]
+          have := (((hasDerivAt_id (W o)).mul_const (∑ d ∈ Finset.range D, X n d)).add_const (B o)).const_mul (G n o)
+          simpa using this
+        · simp only [fcReal, Function.update_of_ne h, h, if_false]
+          exact hasDerivAt_const _ _)
+    refine key.congr_deriv ?_
+    apply Finset.sum_congr rfl
+    intro n _
+    rw [Finset.sum_ite_eq' (Finset.range O) o' (fun o => G n o * ∑ d ∈ Finset.range D, X n d)]
+    simp [ho']
+  · intro n' d' hn' hd'
+    -- the row sum of the updated input
+    have hrow : ∀ n, HasDerivAt (fun t => ∑ d ∈ Finset.range D, Function.update X n' (Function.update (X n') d' t) n d)
+        (if n = n' then 1 else 0) (X n' d') := by
+      intro n
+      by_cases h : n = n'
+      · subst h
+        simp only [Function.update_self, if_true]
+        have : ∀ d ∈ Finset.range D, HasDerivAt (fun t => Function.update (X n) d' t d) (if d = d' then 1 else 0) (X n d') := by
+          intro d _
+          by_cases hd : d = d'
+          · subst hd; simp only [Function.update_self, if_true]; exact hasDerivAt_id _
+          · simp only [Function.update_of_ne hd, hd, if_false]; exact hasDerivAt_const _ _
+        have := HasDerivAt.fun_sum this
+        refine this.congr_deriv ?_
+        rw [Finset.sum_ite_eq' (Finset.range D) d' (fun _ => (1 : ℝ))]
+        simp [hd']
+      · simp only [Function.update_of_ne h, h, if_false]
+        exact hasDerivAt_const _ _
+    have key := hasDerivAt_double_sum N O
+      (fun n o t => G n o * fcReal D W B (Function.update X n' (Function.update (X n') d' t)) n o)
+      (fun n o => if n = n' then G n o * W o else 0) (X n' d') (by
+        intro n o _ _
+        simp only [fcReal]
+        have := (((hrow n).const_mul (W o)).add_const (B o)).const_mul (G n o)
+        refine this.congr_deriv ?_
+        by_cases h : n = n' <;> simp [h])
+    refine key.congr_deriv ?_
+    have hin : ∀ n, (∑ o ∈ Finset.range O, if n = n' then G n o * W o else 0)
+        = if n = n' then ∑ o ∈ Finset.range O, G n o * W o else 0 := by
+      intro n; by_cases h : n = n' <;> simp [h]
+    rw [Finset.sum_congr rfl (fun n _ => hin n), Finset.sum_ite_eq' (Finset.range N) n' (fun n => ∑ o ∈ Finset.range O, G n o * W o)]
+    simp [hn']
+
 /-- **FC over ℝ, forward and backward in one statement.** For every heap and all sizes: parameters `W, B : [O]`, an
     input `x : [N, D]` (well-formed, so `N, D, O ≥ 1`), and any upstream gradient `G : [N, O]`:
 
@@ -1083,7 +1180,7 @@ theorem sumOver_real (n : Nat) (f : Nat → ℝ) : sumOver n f = ∑ i ∈ Finse
       nothing spent);
     * with the `Broadcast` rule summing over the copies (`BMode.sum`, what the property demands), pulling `G` back gives
       `dB[o] = Σ_n G[n][o]`, `dW[o] = Σ_n G[n][o]·Σ_d x[n][d]`, `dx[n][d] = Σ_o G[n][o]·W[o]`, each with the shape of its
-      parameter — the partial derivatives of `Σ_{n,o} G[n][o]·y[n][o]` (see `fc_vjp_is_derivative`). -/
+      parameter — the partial derivatives of `Σ_{n,o} G[n][o]·y[n][o]` (`fc_vjp_is_derivative`, `fc_backward_is_gradient`). -/
 theorem fc_forward_backward (N D O : Nat) (w b x : Nat) (H : Heap ℝ)
     (hw : w < H.size) (hb : b < H.size) (hx : x < H.size)
     (ww : (H.val w).WF) (wb : (H.val b).WF) (wx : (H.val x).WF)
@@ -1142,6 +1239,85 @@ theorem fc_forward_backward (N D O : Nat) (w b x : Nat) (H : Heap ℝ)
     intro o _
     simp only [mul_eq]
     ring
+
+/-- **The gradients `FC` delivers are the derivatives of its formula.** Same setting as `fc_forward_backward`; write
+    `W o`, `B o`, `X n d`, `G n o` for the elements of the parameter, input and upstream-gradient tensors. Then the result
+    is `y[n][o] = fcReal D W B X n o = W o·Σ_d X n d + B o`, and the tensors obtained by pulling `G` back along the three
+    back-edge paths (sum mode) have the shapes of `B`, `W`, `x` and hold, at every position, the partial derivative of
+    `fcLoss = Σ_{n,o} G n o · y[n][o]` with respect to the corresponding entry of `B`, `W`, `x`. -/
+theorem fc_backward_is_gradient (N D O : Nat) (w b x : Nat) (H : Heap ℝ)
+    (hw : w < H.size) (hb : b < H.size) (hx : x < H.size)
+    (ww : (H.val w).WF) (wb : (H.val b).WF) (wx : (H.val x).WF)
+    (dw : (H.val w).dims = [O]) (db : (H.val b).dims = [O]) (dx : (H.val x).dims = [N, D])
+    (G : Tensor ℝ) (wG : G.WF) (dG : G.dims = [N, O])
+    (W B : ℕ → ℝ) (X Gf : ℕ → ℕ → ℝ)
+    (hW : W = fun o => (H.val w).el [o]) (hB : B = fun o => (H.val b).el [o])
+    (hX : X = fun n d => (H.val x).el [n, d]) (hGf : Gf = fun n o => G.el [n, o]) :
+    ∃ y H', fcForward ⟨some w, some b⟩ [some x] H = .ok (y, H') ∧
+      (∀ n o, n < N → o < O → (H'.val y).el [n, o] = fcReal D W B X n o) ∧
+      ∃ dB dW dX,
+        evalPath .sum H' (pathB b H.size) G = .ok dB ∧ dB.dims = (H.val b).dims ∧
+        evalPath .sum H' (pathW w H.size) G = .ok dW ∧ dW.dims = (H.val w).dims ∧
+        evalPath .sum H' (pathX x H.size) G = .ok dX ∧ dX.dims = (H.val x).dims ∧
+        (∀ o, o < O → HasDerivAt (fun t => fcLoss N D O Gf W (Function.update B o t) X) (dB.el [o]) (B o)) ∧
+        (∀ o, o < O → HasDerivAt (fun t => fcLoss N D O Gf (Function.update W o t) B X) (dW.el [o]) (W o)) ∧
+        (∀ n d, n < N → d < D →
+          HasDerivAt (fun t => fcLoss N D O Gf W B (Function.update X n (Function.update (X n) d t))) (dX.el [n, d]) (X n d)) := by
+  obtain ⟨y, H', h1, _, _, _, hy, _, ⟨dB, b1, _, b2, b3⟩, ⟨dW, w1, _, w2, w3⟩, ⟨dX, x1, _, x2, x3⟩⟩ :=
+    fc_forward_backward N D O w b x H hw hb hx ww wb wx dw db dx G wG dG
+  obtain ⟨k1, k2, k3⟩ := fc_vjp_is_derivative N D O Gf W B X
+  subst hW hB hX hGf
+  refine ⟨y, H', h1, ?_, dB, dW, dX, b1, b2, w1, w2, x1, x2, ?_, ?_, ?_⟩
+  · intro n o hn ho
+    rw [hy n o hn ho]; rfl
+  · intro o ho
+    rw [b3 o ho]; exact k1 o ho
+  · intro o ho
+    rw [w3 o ho]; exact k2 o ho
+  · intro n d hn hd
+    rw [x3 n d hn hd]; exact k3 n d hn hd
+
+end C16x
+end Qeep
+
+/-! ## Non-vacuity: a concrete layer (exact integer scalars, kernel-checked) -/
+
+namespace Qeep
+namespace C16x
+
+/-- `W = [2, 3]`, `B = [10, 20]`, `x = [[1, 2, 3], [4, 5, 7]]` (row sums 6 and 16), all tracked leaves -/
+def exHeap : Heap Int :=
+  #[⟨⟨[2], [2, 3]⟩, freshCtx true⟩, ⟨⟨[2], [10, 20]⟩, freshCtx true⟩, ⟨⟨[2, 3], [1, 2, 3, 4, 5, 7]⟩, freshCtx true⟩]
+
+def exRun : Option (Heap Int × Nat) :=
+  match fcForward ⟨some 0, some 1⟩ [some 2] exHeap with
+  | .ok (y, H) => some (H, y)
+  | _ => none
+
+/-- `Forward` succeeds, allocates nodes 3 … 11, and `y[n][o] = W[o]·Σ_d x[n][d] + B[o]` -/
+example : exRun.map (fun (H, y) => (y, H.size, H.val y)) = some (11, 12, ⟨[2, 2], [22, 38, 42, 68]⟩) := by decide
+
+def exG : Tensor Int := ⟨[2, 2], [1, 2, 3, 4]⟩
+
+/-- the three rule paths on that graph with upstream gradient `G = [[1,2],[3,4]]`, sum mode:
+    `dB = [1+3, 2+4]`, `dW = [1·6+3·16, 2·6+4·16]`, `dx[n][·] = G[n][0]·2 + G[n][1]·3` -/
+example : exRun.map (fun (H, _) =>
+      (evalPath .sum H (pathB 1 3) exG, evalPath .sum H (pathW 0 3) exG, evalPath .sum H (pathX 2 3) exG))
+    = some (.ok ⟨[2], [4, 6]⟩, .ok ⟨[2], [54, 76]⟩, .ok ⟨[2, 3], [8, 8, 8, 18, 18, 18]⟩) := by decide
+
+/-- the actual `BackPropagate` (all-ones seed) on that graph, sum mode: `dW[o] = Σ_n Σ_d x[n][d] = 22`, `dB[o] = 2`,
+    `dx[n][d] = W[0] + W[1] = 5`, each with its parameter's shape -/
+example : exRun.map (fun (H, y) =>
+      let R := backprop .sum H y
+      (R.status, R.heap.grad 0, R.heap.grad 1, R.heap.grad 2))
+    = some (.ok (), some ⟨[2], [22, 22]⟩, some ⟨[2], [2, 2]⟩, some ⟨[2, 3], [5, 5, 5, 5, 5, 5]⟩) := by decide
+
+/-- … and as the code has it (`mean` mode, finding D2): `W` and `B` receive the gradient divided by the batch size 2;
+    the input gradient is unaffected (no expanding `Broadcast` on its path) -/
+example : exRun.map (fun (H, y) =>
+      let R := backprop .mean H y
+      (R.status, R.heap.grad 0, R.heap.grad 1, R.heap.grad 2))
+    = some (.ok (), some ⟨[2], [11, 11]⟩, some ⟨[2], [1, 1]⟩, some ⟨[2, 3], [5, 5, 5, 5, 5, 5]⟩) := by decide
 
 end C16x
 end Qeep
